@@ -96,8 +96,19 @@ class G:
 
     def buf(self, n, fill=None):
         if fill is None:
+            if n >= 14 and self.r.random() < 0.25:
+                return self.stale(n)
             return self.rbytes(n)
         return [fill] * n
+
+    def stale(self, n):
+        """a buffer that still holds an older, well-formed MCTP packet (as a reused transmit or
+        response buffer does), followed by filler"""
+        r = self.r
+        k = r.randrange(0, max(1, n - 10))
+        body = ctrl_resp(r.choice([1, 2, 3, 4, 5]), 0, self.rbytes(k)) if r.random() < 0.5 else ctrl_req(r.choice([1, 2, 9, 0x10]), self.rbytes(k))
+        old = forge(r.randrange(128), r.randrange(128), self.rb(), self.rb(), r.choice([0, 0, 0x7E, 0x05]), body)[:n]
+        return old + [r.choice([0x00, 0xFF, 0x0F])] * (n - len(old))
 
 
 # ----------------------------------------------------------------------------- encoder calls
@@ -217,9 +228,16 @@ def gen_encoders(g, tier, addr_mode, bufs=("exact+", "rand")):
             for cc in (0, r.randrange(1, 6)):
                 g.add("enc %s %s respSetEid %s %d %s %s" % (cid, hb(g.rb()), hb(cc), r.randrange(2), hb(r.randrange(3)), hx(g.buf(20))), "eid-sweep:respSetEid")
                 g.add("enc %s %s respGetEid %s %s %s %d %s" % (cid, hb(g.rb()), hb(cc), hb(r.randrange(2)), hb(r.randrange(4)), r.randrange(2), hx(g.buf(20))), "eid-sweep:respGetEid")
+    addr_of = {}
+    for l, f in g.lines:
+        t = l.split()
+        if t[0] == "ctx":
+            addr_of[t[1]] = int(t[2], 16)
     for (name, args) in calls:
         cid = r.choice(ctxs)
-        dst = r.choice([0x34, 0x00, 0x7F, 0x80, 0xFF, r.randrange(256)])
+        a = addr_of.get(cid, 0)
+        # destinations include the context's own address and both stored EIDs
+        dst = r.choice([0x34, 0x00, 0x7F, 0x80, 0xFF, r.randrange(256), a, (a + 0x31) & 0xFF, (a + 0x57) & 0xFF])
         size = call_size(name, args)
         for mode in bufs:
             if mode == "exact+":
@@ -875,6 +893,7 @@ def gen_for(prop, tier, seed):
                 g.add("proc %s %s %s" % (cid, hx(forge(0x15, 9, 0, 9, 0, ctrl_req(2, []))), hx(g.buf(64))), "all-eids-observe")
     elif prop == "C14":
         gen_exact_buffers(g, tier)
+        gen_state_probes(g, tier)
         # configurations with repeated sets (equal to the last one, to the first one, all equal)
         A, Bv, Cv = (0, 0x1234, 7), (1, 0xCAFE0001, 9), (0, 0x1234, 8)
         for vendors in ([A, Bv, A], [A, A], [A, A, A, A], [Bv, A, Bv, A], [A, Cv, A, Cv, A], [Bv, Bv, A]):
@@ -900,6 +919,15 @@ def gen_for(prop, tier, seed):
                         gen_history(g, 1, cid, (addr, [], vendors), "walk-interleave")
     elif prop == "C15":
         gen_exact_buffers(g, tier)
+        gen_state_probes(g, tier)
+        # configuration shapes: special type codes against vendor sets of one format only / both
+        for types in ([0x7E], [0x7F], [0x7E, 0x7F], [0x01, 0x7E, 0x05, 0x7F], [0x00], [0x00, 0x7E, 0x00], [0x05, 0x06], [0xFF] * 30, [0x7F] * 30, list(range(1, 31))):
+            for vendors in ([(0, 0x1234, 1)], [(1, 0x00C0FFEE, 2)], [(0, 1, 1), (1, 2, 2)], [(1, 1, 1), (1, 2, 2), (1, 3, 3)]):
+                addr = g.rb()
+                cid = g.ctx(addr, types, vendors)
+                for cmd, data in ((5, []), (3, []), (4, [0xFF]), (5, [])):
+                    p = forge(addr & 0x7F, 0x19, addr, 0x19, 0, ctrl_req(cmd, data, iid=r.randrange(32)))
+                    g.add("proc %s %s %s" % (cid, hx(p), hx(g.buf(64))), "config-shape:cmd%d" % cmd)
         for n in list(range(0, 31)):
             types = g.rbytes(n)
             addr = g.rb()
@@ -931,6 +959,22 @@ def gen_for(prop, tier, seed):
             pre = [g.rb(), r.choice([0x0F, g.rb()]), g.rb()]
             for _ in range(3):
                 g.add("len c%d %s" % (1 + r.randrange(3), hx(pre + g.rbytes(r.randrange(0, 40)))), "continuation")
+        # long inputs: total lengths around multiples of 256 and 65536
+        for n in (254, 255, 256, 257, 258, 259, 260, 511, 512, 513, 514, 515, 1024, 65535, 65536, 65537, 65539):
+            for b1, b2 in ((0x0F, 0xFC), (0x0F, 0x00), (0x0E, 0x10), (0x0F, g.rb())):
+                g.add("len c%d %s" % (1 + r.randrange(3), hx([g.rb(), b1, b2] + [0x55] * (n - 3))), "long-input")
+        # the probe after the context has processed traffic: on the response it just wrote, on the
+        # request it just read, on other packets
+        for k in range(60):
+            cid = "c%d" % (1 + r.randrange(3))
+            addr = {"c1": 0x23, "c2": 0x77, "c3": 0x00}[cid]
+            src = r.randrange(128)
+            body, lab = r.choice([x for x in answerable_requests(g, 1, [r.randrange(1, 255)]) if x[0][1] != 6])
+            rq = forge(addr & 0x7F, src, addr, src, 0, body)
+            g.add("proc %s %s %s" % (cid, hx(rq), hx([0] * 64)), "after-traffic:process")
+            L = resp_len(body[1], {"c1": [0x7E], "c2": [1, 2, 3], "c3": []}[cid], [(0, 0, 0)])
+            for pre in ([(src << 1) & 0xFF, 0x0F, L - 4], rq[:3], [(src << 1) & 0xFF, 0x0F, L - 4, ((addr & 0x7F) << 1) | 1, 1, src]):
+                g.add("len %s %s" % (cid, hx(pre)), "after-traffic:probe")
         if T:
             # all 2^24 three-byte prefixes, in-process in the executor against the closed form
             for b0 in range(256):
